@@ -92,12 +92,15 @@ theorem str_roundtrip_trigraphs_partial (s : String) (h : hasTrigraph s.toList =
     cppStringTri (renderStr s) = some s := by
   simp [cppStringTri, renderStr, String.toList_ofList, cppStringTriL_render escape_table_ok _ h]
 
-/-- `a??/` is emitted as `"a??/"`, which phase 1 turns into `"a\"` — an unterminated literal;
+/-- As long as `?` is copied verbatim (no row for it in the regenerated table — the state of the
+code today; the disjunct keeps the theorem checkable once `?` is escaped as `\\?`):
+`a??/` is emitted as `"a??/"`, which phase 1 turns into `"a\"` — an unterminated literal;
 `a??/b` becomes `"a\b"`: the two characters `a`, backspace. -/
 theorem str_trigraphs_counterexample :
-    cppStringTri (renderStr "a??/") = none ∧
-    cppStringTri (renderStr "a??/b") = some (String.ofList ['a', Char.ofNat 8]) ∧
-    hasTrigraph "a??/".toList = true := by decide
+    (pyTable.lookup '?').isSome = true ∨
+    (cppStringTri (renderStr "a??/") = none ∧
+     cppStringTri (renderStr "a??/b") = some (String.ofList ['a', Char.ofNat 8]) ∧
+     hasTrigraph "a??/".toList = true) := by decide
 
 /-- PARTIAL (what a `const char*` / `std::string` parameter receives, e.g. the bank name in
 `retrieve(result, "…")`): the string itself, provided it contains no NUL. -/
@@ -328,19 +331,17 @@ theorem names_verbatim_partial (b : String × List (List Seg)) (hb : b ∈ bookT
     nameAt off (renderSegs pyTable tree col var segs) = some (pickName k tree col) :=
   nameAt_bookLine escape_table_ok segs (book_lines_ok b hb segs hs) tree col var off k esc hslot hn
 
-/-- Tree name `t"r` on the ATLAS booking line `ANA_CHECK (book (TTree ("t"r", …)))`: the literal at
-the name's place denotes `t`, and the line no longer lexes. -/
+/-- Every line that copies its name verbatim (today: all seven name places of the three backends,
+e.g. ATLAS `ANA_CHECK (book (TTree ("t"r", …)))`) fails on the name `t"r`: the literal at the name's
+place does not denote the name. (Vacuous for a line whose name is escaped.) -/
 theorem names_counterexample :
-    ∃ segs ∈ (bookTable.lookup "atlas").getD [],
-      nameSlot segs = some (24, .tree, false) ∧
-      nameAt 24 (renderSegs pyTable "t\"r".toList [] [] segs) = some ['t'] ∧
-      ¬ PlainName "t\"r".toList := by
-  refine ⟨_, List.mem_cons_self, ?_⟩
-  decide
+    ¬ PlainName "t\"r".toList ∧
+    ∀ b ∈ bookTable ++ fillTable, ∀ segs ∈ b.2, verbatimSlot segs = true →
+      slotCarries pyTable "t\"r".toList "t\"r".toList "_v".toList segs = false := by decide
 
 /-! ## non-vacuity -/
 
-example : TableOk pyTable ∧ pyTable.length = 5 := by decide
+example : TableOk pyTable ∧ pyTable.length ≥ 4 := by decide
 example : cppString (renderStr "a\"b\\c\nd\re\tf?'ü") = some "a\"b\\c\nd\re\tf?'ü" := str_roundtrip _
 example : renderStr "a\"b" = "\"a\\\"b\"" := by decide
 example : hasTrigraph "what?? no!".toList = false ∧ hasTrigraph "a??/".toList = true := by decide
@@ -355,6 +356,8 @@ example : cppFloat "-1.5e-07" = some ({ neg := true, mant := 15, exp := -8 }, .d
 example : cppFloat "100" = none ∧ cppInt "1e5" = none := by decide
 example : PlainName "AntiKt4EMTopoJets".toList ∧ PlainName "jet pt [GeV]".toList := by decide
 example : (bookTable ++ fillTable).length = 6 := by decide
-example : nameAt 24 (renderSegs pyTable "tr".toList [] [] ((bookTable.lookup "atlas").getD []).head!) = some "tr".toList := by decide
+-- on plain names every name place of every backend carries its name
+example : ∀ b ∈ bookTable ++ fillTable, ∀ segs ∈ b.2,
+    slotCarries pyTable "atlas_xaod_tree".toList "jet pt".toList "_jetpt3".toList segs = true := by decide
 
 end FaxVerif.C18
